@@ -32,13 +32,12 @@ theorem handlesFrom_append (c : Nat) : ∀ (k : Nat) (cs : List Nat),
 structure ExtrasP (cobs : List Nat) (w : World) : Prop where
   held : w.held = []
   slots : ∀ i, i < 4 → w.slots[i]? = some none
-  obsvH : w.obsvs[0]? = some Hp.observable
   obsvS : w.obsvs[1]? = some Sp.observable
   cn : w.cells[4]? = some (Data.ofList (handlesFrom 0 cobs))
   nCells : w.cells.length = 5 + cobs.length
 
 theorem ExtrasP.touch {cobs w w' J K} (h : ExtrasP cobs w) (t : Touch J K w w') (hK : ¬ K 4) : ExtrasP cobs w' :=
-  ⟨t.held ▸ h.held, fun i hi => t.slots ▸ h.slots i hi, t.obsvs ▸ h.obsvH, t.obsvs ▸ h.obsvS,
+  ⟨t.held ▸ h.held, fun i hi => t.slots ▸ h.slots i hi, t.obsvs ▸ h.obsvS,
    by rw [t.cells _ hK]; exact h.cn, t.cellsLen ▸ h.nCells⟩
 
 /-- the users' side of a publish world -/
@@ -62,14 +61,14 @@ theorem URp.conn {roots cobs w s} (h : URp roots cobs w s) (i : Nat) (hi : i < c
   refine ⟨g.touch (Touch.setObs (J := fun _ => True) (K := NoCell) w _ _ trivial), ?_, ?_⟩
   · exact U.frame rfl rfl rfl
       (fun u hu => getElem?_setObs_other _ (fun e => g.root_ne_cob hu hi e.symm)) (fun _ => rfl)
-  · exact ⟨X.held, X.slots, X.obsvH, X.obsvS, X.cn, X.nCells⟩
+  · exact ⟨X.held, X.slots, X.obsvS, X.cn, X.nCells⟩
 
 theorem URp.cell0 {roots cobs w s} (h : URp roots cobs w s) (d : Data) :
     URp roots cobs { w with cells := w.cells.set Hp.observers d } s := by
   obtain ⟨g, U, X⟩ := h
   refine ⟨⟨g.status, g.nObs, g.rootsLt, g.cobsLt, g.nodup⟩, ?_, ?_⟩
   · exact U.frame (set_get_other _ (by decide)) (set_get_other _ (by decide)) rfl (fun _ _ => rfl) (fun _ => rfl)
-  · exact ⟨X.held, X.slots, X.obsvH, X.obsvS, by show (w.cells.set _ _)[4]? = _; rw [set_get_other _ (by decide)]; exact X.cn,
+  · exact ⟨X.held, X.slots, X.obsvS, by show (w.cells.set _ _)[4]? = _; rw [set_get_other _ (by decide)]; exact X.cn,
       by simp [X.nCells]⟩
 
 theorem URp.emit {roots cobs w s} (ev : Ev) (hh : SlotReads w.held) (h : URp roots cobs w s) :
@@ -126,7 +125,7 @@ theorem subscribeP_spec {roots cobs armed w st} (h : RelP roots cobs armed w st)
   rw [U.nUsers]
   refine ⟨⟨g1.status, g1.nObs, g1.rootsLt, g1.cobsLt, g1.nodup⟩, h.held,
     ⟨⟨g1.status, g1.nObs, g1.rootsLt, g1.cobsLt, g1.nodup⟩, U1, ?_⟩, ?_⟩
-  · exact ⟨X.held, X.slots, X.obsvH, X.obsvS,
+  · exact ⟨X.held, X.slots, X.obsvS,
       by show (subUserWorld Sp w roots st.sub.observers st.sub.serial).cells[4]? = _
          rw [subUser_cells Sp w roots st.sub.observers st.sub.serial (by decide) (by decide)]; exact X.cn,
       by show (subUserWorld Sp w roots st.sub.observers st.sub.serial).cells.length = _
@@ -157,7 +156,7 @@ theorem unsubscribeP_spec {roots cobs armed w st} (h : RelP roots cobs armed w s
     have g1 := unsubUser_glob (S := Sp) g u st.sub.observers s0
     have U1 := plainUnsub_live (U.seen u hu) hk hin (unsubUser_users (s := s0) g U hu)
     refine ⟨g1, h.held, ⟨g1, U1, ?_⟩, ?_⟩
-    · exact ⟨X.held, X.slots, X.obsvH, X.obsvS,
+    · exact ⟨X.held, X.slots, X.obsvS,
         by rw [unsubUser_cells Sp w roots u st.sub.observers s0 (by decide)]; exact X.cn,
         by rw [unsubUser_cellsLen]; exact X.nCells⟩
     · refine h.conns.frame ?_ ?_ ?_ ?_
@@ -193,7 +192,7 @@ theorem connectP_spec {roots cobs armed w st} (h : RelP roots cobs armed w st) :
   have hm : st.conns.length = cobs.length := h.conns.lenC.symm
   unfold connectProgP connectProgG publishConnect
   refine connect_pre (H := Hp) (fn := fnP) (fe := feP) (fc := fcP) (hmap := liveFrom 0 cobs st.conns)
-    (m := st.conns.length) h.held X.obsvH (X.slots 0 (by decide)) h.conns.ne h.conns.cellO h.conns.cellS
+    (m := st.conns.length) h.held h.conns.obsv (X.slots 0 (by decide)) h.conns.ne h.conns.cellO h.conns.cellS
     (fun p hp => by have := (liveFrom_keys 0 cobs st.conns p hp).2; omega) ?_
   have hcl : (connWorld Hp fnP feP fcP w (liveFrom 0 cobs st.conns) st.conns.length).held = [] := X.held
   refine wp_cellRead hcl ?_
@@ -221,7 +220,7 @@ theorem connectP_spec {roots cobs armed w st} (h : RelP roots cobs armed w st) :
       exact connWorld_cells Hp fnP feP fcP w _ _ (by decide) (by decide) (lt_of_getElem?_some U.cellS)
     · intro u hu
       exact connWorld_obs_lt Hp fnP feP fcP w (liveFrom 0 cobs st.conns) st.conns.length (g.rootsLt _ (rootAt_mem hu))
-  · refine ⟨X.held, X.slots, X.obsvH, X.obsvS, ?_, ?_⟩
+  · refine ⟨X.held, X.slots, X.obsvS, ?_, ?_⟩
     · show ((connWorld Hp fnP feP fcP w _ _).cells.set 4 _)[4]? = _
       rw [set_get_same _ hcn, handlesFrom_append, Nat.zero_add, ← hm, hnew]
     · show ((connWorld Hp fnP feP fcP w _ _).cells.set 4 _).length = _
